@@ -93,7 +93,8 @@ Fault(act, S, c, v, from, len, bk, rs, m, sigs) ==
   /\ UNCHANGED state
   /\ ev' = Event(act, S, c, v, from, len, bk, rs, m, sigs, "FAULT", "null", <<>>)
 
-\* AddNextEpochNodes(cID, placementVector, publicKeys); bk: one of the keys is not 33 bytes long
+\* AddNextEpochNodes(cID, placementVector, publicKeys); bk: one of the keys is not 33 bytes long, or (len = 0) Null is
+\* passed instead of a list (the loop over it FAULTs, an empty list is fine)
 Add(S, c, v, from, len, bk, dup) ==
   IF /\ v < 255                                        \* ErrorTooBigNumberOfNodes
      /\ v \in Vecs
@@ -167,7 +168,7 @@ Matrices == SeqsUpTo(SeqsUpTo(SigAlphabet, MaxSigs), MaxMV)
 
 NextOf(P(_), PS(_), PM(_)) ==
   /\ \/ \E S \in PS(SignerSets), c \in P(Cids), v \in P(Vecs), b \in P(Batches), bk \in P({FALSE, FALSE, TRUE}) :
-          \E dup \in P(Dups) : Add(S, c, v, b[1], b[2], bk /\ b[2] > 0, dup /\ b[2] > 0)
+          \E dup \in P(Dups) : Add(S, c, v, b[1], b[2], bk, dup /\ b[2] > 0)
      \/ \E S \in PS(SignerSets), c \in P(Cids), rs \in P(RepSeqs) : Commit(S, c, rs)
      \/ \E c \in P(Cids), m \in P(Msgs) : \E sg \in PM(c) : Verify(c, m, sg)
      \/ \E S \in P({T \in SignerSets : "ALPHA" \notin T}), c \in P(Cids), m \in P(Msgs) : \E sg \in PM(c) : Submit(S, c, m, sg)
